@@ -11,7 +11,11 @@ IPMI v2.0 ch. 43, most of which carry no ID string / no entity), `nonlinear` (pl
 linearisation is 1/x, ln, log10 - with a raw reading of 0 or unused threshold bytes of 0 - sqrt, x^2, e^x),
 `unavailable` (plain + a threshold and a discrete sensor that flag "reading/state unavailable", table 35-15
 byte 3 bit 5, as a sensor does during its initial update or right after a re-arm),
-`full` (everything: both SDR sets, a base channel without link, the HPM.1 upgrade commands).  A conforming
+`full` (everything: both SDR sets, a base channel without link, the HPM.1 upgrade commands),
+`luns` (plain + full and compact sensor records whose sensor owner LUN - table 43-1 / 43-2 byte 7 [1:0] - is 0, 1
+and 3: two full and two compact sensors that share their NUMBER and differ in LUN and reading, a full and a
+compact sensor whose number exists on LUN 3 only; Get Sensor Reading is answered per (responder LUN, number),
+CBh for a pair that names no sensor; every other command is implemented on LUN 0 only).  A conforming
 controller may be any of them.
 
 Faults (`faults`: request index -> fault): ('cc', code), ('timeout',) = IpmiTimeoutError, ('exc', name) = the
@@ -52,9 +56,9 @@ def fru_image():
     return hdr + board
 
 
-def sdr_full(rid, number, name):
+def sdr_full(rid, number, name, lun=0):
     body = bytes([
-        0x20, 0x00, number,       # owner id, owner lun, sensor number
+        0x20, lun & 0x03, number,  # owner id, owner lun (byte 7 [1:0]), sensor number
         0x03, 0x01,               # entity id (processor), instance
         0x7f, 0x68,               # initialization, capabilities
         0x01, 0x01,               # sensor type temperature, event/reading type threshold
@@ -76,9 +80,9 @@ def sdr_full(rid, number, name):
     return struct.pack('<HBBB', rid, 0x51, 0x01, len(body)) + body
 
 
-def sdr_compact(rid, number, name):
+def sdr_compact(rid, number, name, lun=0):
     body = bytes([
-        0x20, 0x00, number,
+        0x20, lun & 0x03, number,
         0x07, 0x01,
         0x67, 0x40,
         0x07, 0x6f,               # sensor type processor, sensor-specific discrete
@@ -194,7 +198,26 @@ def sdrs_unavailable(first_id):
             {0x34: [0x00, 0x00, 0xe0, 0x00], 0x35: [0x00, 0x00, 0xe0, 0x00, 0x80]})
 
 
-PROFILES = ('full', 'minimal', 'plain', 'sdrtypes', 'nonlinear', 'unavailable')
+def sdrs_luns(first_id):
+    """(records, {(lun, number): Get Sensor Reading reply}): sensors on owner LUN 0, 1 and 3 (table 43-1 / 43-2
+    byte 7 [1:0]; LUN 2 is the SMS LUN).  A sensor is named by (owner, LUN, number): number 51h is a full sensor
+    on LUN 0 AND another one on LUN 1 (different readings), number 52h a compact sensor on LUN 0 and on LUN 1
+    (different states); 07h (full) and 08h (compact) exist on LUN 3 only.  The record whose sensor the shipped
+    tool cannot reach on LUN 0 through its compact branch is the last one."""
+    r = first_id
+    recs = [sdr_full(r, 0x51, 'Vcc carrier', 0), sdr_full(r + 1, 0x51, 'Vcc module', 1),
+            sdr_full(r + 2, 0x07, 'Temp module', 3),
+            sdr_compact(r + 3, 0x52, 'Slot A state', 0), sdr_compact(r + 4, 0x52, 'Slot B state', 1),
+            sdr_compact(r + 5, 0x08, 'Slot C state', 3)]
+    readings = {(0, 0x51): [0x00, 0x20, 0xc0, 0x01], (1, 0x51): [0x00, 0x48, 0xc0, 0x04],
+                (3, 0x07): [0x00, 0x3b, 0xc0, 0x08],
+                (0, 0x52): [0x00, 0x00, 0xc0, 0x82, 0x80], (1, 0x52): [0x00, 0x00, 0xc0, 0x84, 0x80],
+                (3, 0x08): [0x00, 0x00, 0xc0, 0x90, 0x80]}
+    return recs, readings
+
+
+LUNS_FIRST_ID = 0x40
+PROFILES = ('full', 'minimal', 'plain', 'sdrtypes', 'nonlinear', 'unavailable', 'luns')
 
 
 class Bmc20(object):
@@ -224,6 +247,17 @@ class Bmc20(object):
             recs, rd = sdrs_unavailable(0x30)
             self.sdrs += recs
             self.readings.update(rd)
+        # sensors on other LUNs than 0: (lun, number) -> reply.  `readings` are the sensors of LUN 0.
+        self.lun_readings = {}
+        if profile == 'luns':
+            recs, rd = sdrs_luns(LUNS_FIRST_ID)
+            self.sdrs += recs
+            for (lun, number), reply in rd.items():
+                if lun == 0:
+                    self.readings[number] = reply
+                else:
+                    self.lun_readings[(lun, number)] = reply
+        self.sensor_luns = set([0] + [l for l, _ in self.lun_readings])
         self.linkless = profile == 'full'       # base channel 3 is configured but carries no link
         self.sel = list(self.SEL)
         self.chassis_controls = []
@@ -242,7 +276,12 @@ class Bmc20(object):
             return bytes([f[1]])
         if not data:
             return bytes([0xc7])
-        if not isinstance(lun, int) or not isinstance(netfn, int) or lun != 0:
+        if not isinstance(lun, int) or not isinstance(netfn, int):
+            return bytes([0xc1])
+        if lun != 0:
+            # only the sensors live on other LUNs (and only in a profile that has some there)
+            if (netfn, data[0]) == (0x04, 0x2d) and lun in self.sensor_luns and self.profile != 'minimal':
+                return bytes(self._sensor_reading(lun, data[1:]))
             return bytes([0xc1])
         fn = getattr(self, '_h_%02x_%02x' % (netfn & 0xff, data[0]), None) if 0 <= netfn < 256 else None
         if fn is None:
@@ -311,10 +350,18 @@ class Bmc20(object):
 
     _h_04_21 = _get_sdr          # Get Device SDR, table 35-4
 
-    def _h_04_2d(self, d):       # Get Sensor Reading, table 35-15
+    def reading_of(self, lun, number):
+        """reply of Get Sensor Reading sent to responder LUN `lun` for sensor `number` (None: no such sensor)"""
+        return self.readings.get(number) if lun == 0 else self.lun_readings.get((lun, number))
+
+    def _sensor_reading(self, lun, d):   # Get Sensor Reading, table 35-15: the sensor is (responder LUN, number)
         if len(d) != 1:
             return [0xc7]
-        return self.readings.get(d[0], [0xcb])
+        r = self.reading_of(lun, d[0])
+        return [0xcb] if r is None else r
+
+    def _h_04_2d(self, d):
+        return self._sensor_reading(0, d)
 
     def _h_04_2a(self, d):       # Re-arm Sensor Events, table 35-13
         if len(d) < 2 or len(d) > 6:
